@@ -362,6 +362,9 @@ fn main() {
                 "let s = \"\u{e9}\u{e9}\u{e9}\u{e9}\u{e9}\u{e9}\u{e9}\u{e9}\u{e9}\" \u{65e5}",
                 // bracket nesting just over the parser's limit (an error without a token length)
                 over_limit.as_str(),
+                // connector-parameter completion contexts with multi-byte names after blanks
+                "connector K\u{fc}che = mqtt(host: \"h\")\nstream S = X.from( \u{dc}n\u{ef}",
+                "stream S = X.from(  \u{65e5}\u{672c}, topic: \"t\"\nstream T = S.to( \u{e9}\u{e9}, ",
                 // a well-formed document with symbols to find
                 "event Tick:\n    price: float\n\nstream Big = Tick\n    .where(price > 10.0)\n    .emit(p: price)\n",
             ] {
@@ -383,6 +386,12 @@ fn main() {
             };
             if ops != ["none"] && rng.chance(1, 2) {
                 t = insert_multibyte(&mut rng, &t);
+                if rng.chance(1, 6) {
+                    // an unfinished `.from(` / `.to(` with blanks and a multi-byte identifier (completion's
+                    // connector-parameter context)
+                    let tail = ["\n    .from( \u{dc}n\u{ef}", "\n    .to(  \u{65e5}\u{672c}, ", ".from(\t\u{e9}x, a: 1, ", "\nstream Z = Q.to( \u{fc}"][rng.below(4)];
+                    t.push_str(tail);
+                }
             }
             let t = sanitize(&t);
             let all = t.len() <= 120;
